@@ -1690,6 +1690,13 @@ class _FormatInferInstance(Visitor):
         prec = AbstractFormat.from_format(fmt).prec
         if not isinstance(prec, int):
             return []       # unbounded precision pins no position
+        # the bound is on what `logb` *returned*, the exponent rounded under the
+        # context it was read in: a 2-digit context turns 7 into 8, and
+        # `logb(v) >= 8` then holds for a `v` of 128
+        assert isinstance(d, AssignDef) and isinstance(d.site, Assign)
+        resolved = self._resolve_active_ctx(d.site.expr)
+        if not round_is_identity(exact_logb(fmt), resolved):
+            return []
         # `logb(v) >= c` gives `|v| >= 2 ** floor(c)` whether or not `logb`'s
         # result is known to be integral
         return [(d_v, _unconstrained(exp=math.floor(c) - prec + 1))]
